@@ -827,6 +827,10 @@ def check_C05(ctx):
         for r in ('PEXPR', 'DEXPR'):
             if b.impl[idx[r]].startswith(('ERROR', 'WARN')):
                 continue
+            if b.status[idx[r]] == 'range':
+                # constant folding left the double range (OverflowError out of `**`): outside the properties
+                rep.stats['float_range_effects'] += 1
+                continue
             try:
                 s = core.parse_expr_line(b.impl[idx[r]])
             except Exception:  # noqa: BLE001
@@ -949,13 +953,19 @@ def check_C08(ctx):
                 try:
                     steps.append((cur, core.parse_expr_line(rest), lab, j))
                 except Exception:  # noqa: BLE001
-                    rep.oracle_fail('STEP did not return an expression', b, [j])
+                    if b.status[j] == 'range':
+                        rep.stats['float_range_effects'] += 1
+                    else:
+                        rep.oracle_fail('STEP did not return an expression', b, [j])
         cands = [(a, c, lab, j) for a, c, lab, j in steps]
         if not b.impl[r['norm']].startswith('ERROR'):
             try:
                 cands.append((r['e'], core.parse_expr_line(b.impl[r['norm']]), 'normalize', r['norm']))
             except Exception:  # noqa: BLE001
-                rep.oracle_fail('_normalize did not return an expression', b, [r['norm']])
+                if b.status[r['norm']] == 'range':
+                    rep.stats['float_range_effects'] += 1
+                else:
+                    rep.oracle_fail('_normalize did not return an expression', b, [r['norm']])
         for a, c, lab, j in cands:
             if sx.size(a) > 120 or sx.size(c) > 200:
                 continue
